@@ -5,8 +5,8 @@ within the quick budget) and benign changes (must not raise an alarm).
   ./check selftest sensitivity [M1 c17a ...]
   ./check selftest benign [B1 ...]
 
-Sensitivity/benign apply a patch to /repo (git apply), run the named quick check and undo it
-straight afterwards (git checkout -- .), also when interrupted.
+Sensitivity/benign apply each patch to a scratch worktree of /repo's HEAD under /tmp (removed
+afterwards together with its build output) and point the checks at it; /repo is never modified.
 """
 import json
 import os
@@ -79,23 +79,46 @@ def sh(cmd, **kw):
     return subprocess.run(cmd, stdout=subprocess.PIPE, stderr=subprocess.STDOUT, text=True, **kw)
 
 
-def repo_clean():
-    r = sh(["git", "-C", "/repo", "status", "--porcelain", "--untracked-files=no"])
-    return r.stdout.strip() == ""
+# Patches are applied to a scratch worktree of /repo's HEAD outside /repo and /verif; the checks are
+# pointed at it through VERIF_REPO_OVERRIDE_FOR_SELFTEST (cargo `paths` override, separate target
+# directory), so /repo itself is never modified by the self-tests and they can run next to other work.
+SCRATCH = os.environ.get("VERIF_SELFTEST_SCRATCH", "/tmp/verif_selftest_repo")
+
+
+def scratch_setup():
+    if not os.path.isdir(os.path.join(SCRATCH, "src")):
+        sh(["git", "-C", "/repo", "worktree", "prune"])
+        r = sh(["git", "-C", "/repo", "worktree", "add", "--detach", "--force", SCRATCH, "HEAD"])
+        if r.returncode != 0:
+            raise SystemExit("selftest: cannot create scratch worktree: " + r.stdout)
+        if os.path.exists("/repo/Cargo.lock"):
+            import shutil
+            shutil.copy("/repo/Cargo.lock", os.path.join(SCRATCH, "Cargo.lock"))
+    os.environ["VERIF_REPO_OVERRIDE_FOR_SELFTEST"] = SCRATCH
+
+
+def scratch_teardown():
+    os.environ.pop("VERIF_REPO_OVERRIDE_FOR_SELFTEST", None)
+    sh(["git", "-C", "/repo", "worktree", "remove", "--force", SCRATCH])
+    import shutil
+    shutil.rmtree(os.path.join(VERIF, "target-alt"), ignore_errors=True)
+
+
+def scratch_reset():
+    sh(["git", "-C", SCRATCH, "checkout", "--", "."])
+    sh(["git", "-C", SCRATCH, "clean", "-fdq", "--", "src", "tests", "examples", "benches"])
 
 
 def with_patch(patch, fn):
-    if not repo_clean():
-        raise SystemExit("selftest: /repo has uncommitted changes to tracked files; refusing to apply a patch")
-    r = sh(["git", "-C", "/repo", "apply", os.path.join(VERIF, patch)])
+    scratch_setup()
+    scratch_reset()
+    r = sh(["git", "-C", SCRATCH, "apply", os.path.join(VERIF, patch)])
     if r.returncode != 0:
         return ("patch-failed", r.stdout)
     try:
         return fn()
     finally:
-        sh(["git", "-C", "/repo", "checkout", "--", "."])
-        # a patch may add source files: remove untracked files under the source directories
-        sh(["git", "-C", "/repo", "clean", "-fdq", "--", "src", "tests", "examples", "benches"])
+        scratch_reset()
 
 
 def run_check(prop):
@@ -230,11 +253,15 @@ def main(argv, ck):
         return 2
     if argv[0] == "determinism":
         return determinism(ck)
-    if argv[0] == "sensitivity":
-        return sensitivity(argv[1:])
-    if argv[0] == "benign":
-        return benign(argv[1:])
-    if argv[0] == "known":
-        return known_plumbing()
+    try:
+        if argv[0] == "sensitivity":
+            return sensitivity(argv[1:])
+        if argv[0] == "benign":
+            return benign(argv[1:])
+        if argv[0] == "known":
+            return known_plumbing()
+    finally:
+        if os.environ.get("VERIF_SELFTEST_KEEP_SCRATCH") is None:
+            scratch_teardown()
     print(__doc__)
     return 2
